@@ -23,6 +23,12 @@ func genC11(p *pkgInfo, l *leanFile) {
 				return true
 			}
 			name := types.ExprString(c.Fun)
+			// the replacer is whatever local holds the result of strings.NewReplacer, by any name
+			if sel, ok := c.Fun.(*ast.SelectorExpr); ok && sel.Sel.Name == "Replace" {
+				if id, ok := sel.X.(*ast.Ident); ok && c11ReplacerVars(fd)[id.Name] {
+					name = "repl.Replace"
+				}
+			}
 			switch name {
 			case "strings.NewReplacer":
 				for i := 0; i+1 < len(c.Args); i += 2 {
@@ -76,4 +82,20 @@ func genC11(p *pkgInfo, l *leanFile) {
 	l.pf("def prefixACME : String := %s\n", leanStr(p.constString("prefixACME")))
 	facts["C11"] = map[string]any{"replacerPairs": pairs, "safeSteps": steps, "safeKeyRE": re}
 	l.pf("\nend CM.Gen.C11\n")
+}
+
+// locals assigned from strings.NewReplacer(...)
+func c11ReplacerVars(fd *ast.FuncDecl) map[string]bool {
+	out := map[string]bool{}
+	ast.Inspect(fd.Body, func(n ast.Node) bool {
+		if a, ok := n.(*ast.AssignStmt); ok && len(a.Lhs) == 1 && len(a.Rhs) == 1 {
+			if c, ok := a.Rhs[0].(*ast.CallExpr); ok && types.ExprString(c.Fun) == "strings.NewReplacer" {
+				if id, ok := a.Lhs[0].(*ast.Ident); ok {
+					out[id.Name] = true
+				}
+			}
+		}
+		return true
+	})
+	return out
 }
